@@ -122,7 +122,7 @@ theorem gzip_roundtrip (G : Gz) (hG : LawfulGz G) (d rest : Bytes)
     decodeGzip G (encodeGzip G d ++ rest) = .ok (d, rest) := by
   unfold decodeGzip encodeGzip
   rw [gzipUnframe_gzipFrame _ _ hc]
-  simp only [hG.gunz_gz d]
+  simp only [hG.hdr_gz d, hG.gunz_gz d, Bool.not_true, Bool.false_eq_true, if_false]
   rw [gunzLimited_clean d (by omega)]
 
 /-! ## Bounded expansion -/
@@ -130,33 +130,37 @@ theorem gzip_roundtrip (G : Gz) (hG : LawfulGz G) (d rest : Bytes)
 /-- **gzip_bounded.**  Whatever the bytes and whatever the decompressor does, a successful decode
 returns less than 10·2^20 bytes, and they are what the decompressor produced with a clean end. -/
 theorem gzip_bounded (G : Gz) (b d r : Bytes) (h : decodeGzip G b = .ok (d, r)) :
-    d.length < 10 * 2 ^ 20 ∧ ∃ buf, gzipUnframe b = .ok (buf, r) ∧ G.gunz buf = (d, true) := by
+    d.length < 10 * 2 ^ 20 ∧ ∃ buf, gzipUnframe b = .ok (buf, r) ∧ G.hdrOK buf = true ∧ G.gunz buf = (d, true) := by
   unfold decodeGzip at h
   cases hu : gzipUnframe b with
   | error e => simp [hu] at h
   | ok p =>
     obtain ⟨buf, rest⟩ := p
     simp only [hu] at h
-    cases hg : gunzLimited (G.gunz buf) with
-    | error e => simp [hg] at h
-    | ok d' =>
-      simp only [hg] at h
-      injection h with h; injection h with h1 h2
-      subst h1 h2
-      obtain ⟨e1, e2, e3⟩ := gunzLimited_ok hg
-      refine ⟨by rw [e1]; omega, buf, rfl, ?_⟩
-      rw [e1]
-      cases hgz : G.gunz buf with
-      | mk o c => rw [hgz] at e3; simp only at e3; rw [e3]
+    cases hh : G.hdrOK buf with
+    | false => simp [hh] at h
+    | true =>
+      simp only [hh, Bool.not_true, Bool.false_eq_true, if_false] at h
+      cases hg : gunzLimited (G.gunz buf) with
+      | error e => simp [hg] at h
+      | ok d' =>
+        simp only [hg] at h
+        injection h with h; injection h with h1 h2
+        subst h1 h2
+        obtain ⟨e1, e2, e3⟩ := gunzLimited_ok hg
+        refine ⟨by rw [e1]; omega, buf, rfl, hh, ?_⟩
+        rw [e1]
+        cases hgz : G.gunz buf with
+        | mk o c => rw [hgz] at e3; simp only at e3; rw [e3]
 
 /-- **gzip_bomb_rejected.**  If the stream would decompress to 10 MiB or more (a bomb of any size,
 clean or not) the decode is the bomb error; and at exactly the limit too (`>=`). -/
-theorem gzip_bomb_rejected (G : Gz) (c rest : Bytes) (hc : c.length < 2 ^ 24)
+theorem gzip_bomb_rejected (G : Gz) (c rest : Bytes) (hc : c.length < 2 ^ 24) (hh : G.hdrOK c = true)
     (h : (G.gunz c).1.length ≥ 10 * 2 ^ 20) :
     decodeGzip G (gzipFrame c ++ rest) = .error errBomb := by
   unfold decodeGzip
   rw [gzipUnframe_gzipFrame _ _ hc]
-  simp only
+  simp only [hh, Bool.not_true, Bool.false_eq_true, if_false]
   rw [gunzLimited_bomb _ (by omega)]
 
 /-- A corrupt or truncated stream below the limit is an error as well. -/
@@ -165,9 +169,20 @@ theorem gzip_corrupt_rejected (G : Gz) (c rest out : Bytes) (hc : c.length < 2 ^
   unfold decodeGzip
   rw [gzipUnframe_gzipFrame _ _ hc]
   simp only [h]
-  by_cases hl : out.length < 10485760
-  · rw [gunzLimited_unclean out hl]; exact ⟨_, rfl⟩
-  · rw [gunzLimited_bomb (out, false) (by simp only; omega)]; exact ⟨_, rfl⟩
+  cases G.hdrOK c with
+  | false => exact ⟨_, rfl⟩
+  | true =>
+    simp only [Bool.not_true, Bool.false_eq_true, if_false]
+    by_cases hl : out.length < 10485760
+    · rw [gunzLimited_unclean out hl]; exact ⟨_, rfl⟩
+    · rw [gunzLimited_bomb (out, false) (by simp only; omega)]; exact ⟨_, rfl⟩
+
+/-- A stream whose gzip header is not accepted is the header error, whatever else it contains. -/
+theorem gzip_bad_header_rejected (G : Gz) (c rest : Bytes) (hc : c.length < 2 ^ 24) (hh : G.hdrOK c = false) :
+    decodeGzip G (gzipFrame c ++ rest) = .error errGzipHeader := by
+  unfold decodeGzip
+  rw [gzipUnframe_gzipFrame _ _ hc]
+  simp [hh]
 
 /-! ## Totality: malformed input is an error, never a panic
 
@@ -252,12 +267,42 @@ theorem unencrypted_malformed (ak mid n : Int) (tail : Bytes)
     have h1 : Facts.C22.unencLenBeyond n (tail.length : Int) = true := by simp [Facts.C22.unencLenBeyond, h]
     simp only [h0, Bool.false_eq_true, if_false, h1, if_true]
 
+/-! ## The generated twins in /repo/mt -/
+
+/-- `mt.GzipPacked`, `mt.Message` (inside a container), `mt.MsgContainer` and `mt.RPCResult` round-trip
+for every value (ids/seqnos/lengths in their Go ranges, packed data shorter than 2^24), leaving
+the bytes that follow. -/
+theorem mt_roundtrips (ms : List MtMessage) (id : Int) (p rest : Bytes)
+    (h : ∀ m ∈ ms, m.WF) (hc : ms.length < 2 ^ 31) (hid : -2 ^ 63 ≤ id ∧ id < 2 ^ 63) (hp : p.length < 2 ^ 24) :
+    mtDecodeGzip (mtEncodeGzip p ++ rest) = .ok (p, rest) ∧
+    mtDecodeContainer (mtEncodeContainer ms ++ rest) = .ok (ms, rest) ∧
+    mtDecodeResult (mtEncodeResult id p ++ rest) = .ok ((id, p), rest) :=
+  ⟨mtDecodeGzip_mtEncodeGzip p rest hp, mtDecodeContainer_mtEncodeContainer ms h hc rest,
+   mtDecodeResult_mtEncodeResult id p rest hid hp⟩
+
+/-- **Twins agree.**  A proto container whose message bodies are gzip_packed frames (and whose
+lengths are within proto's 1 MiB limit) is, byte for byte, mt's encoding of the twin messages, so
+`mt.MsgContainer.Decode` reads proto's containers; the same for `proto.Result` / `mt.RPCResult` and
+`proto.GZIP`'s frame / `mt.GzipPacked`. -/
+theorem mt_twins_agree (ms : List MtMessage) (id : Int) (p : Bytes)
+    (hb : ∀ m ∈ ms, 0 ≤ m.bytes ∧ m.bytes ≤ 1048576) :
+    encodeContainer (ms.map MtMessage.toProto) = .ok (mtEncodeContainer ms) ∧
+    encodeResult ⟨id, gzipFrame p⟩ = mtEncodeResult id p ∧ gzipFrame p = mtEncodeGzip p := by
+  refine ⟨?_, rfl, rfl⟩
+  unfold encodeContainer mtEncodeContainer
+  rw [encodeMessages_twins ms hb]
+  simp [mtContainerID_eq]
+
+/-- The slice capacity `mt.MsgContainer.DecodeBare` pre-allocates on the sender's say-so is below
+`bin.PreallocateLimit` = 1024 for every announced count. -/
+theorem mt_prealloc_bounded (n : Int) : mtPrealloc n < 1024 := mtPrealloc_lt n
+
 /-! ## Non-vacuity -/
 
 /-- The toy gzip (store) is lawful, so `gzip_roundtrip`'s hypotheses are satisfiable. -/
-example : LawfulGz Gz.store := ⟨fun _ => rfl⟩
+example : LawfulGz Gz.store := ⟨fun _ => rfl, fun _ => rfl⟩
 example : decodeGzip Gz.store (encodeGzip Gz.store [1, 2, 3] ++ [9]) = .ok ([1, 2, 3], [9]) :=
-  gzip_roundtrip Gz.store ⟨fun _ => rfl⟩ [1, 2, 3] [9] (by simp) (by simp [Gz.store])
+  gzip_roundtrip Gz.store ⟨fun _ => rfl, fun _ => rfl⟩ [1, 2, 3] [9] (by simp) (by simp [Gz.store])
 /-- A two-message container with bodies of 4 and 0 bytes. -/
 example : ∃ x, encodeContainer [⟨5, 1, 4, [1, 2, 3, 4]⟩, ⟨-7, 2, 0, []⟩] = .ok x ∧
     decodeContainer (x ++ [0xff]) = .ok ([⟨5, 1, 4, [1, 2, 3, 4]⟩, ⟨-7, 2, 0, []⟩], [0xff]) :=
